@@ -12,7 +12,7 @@ use crate::exch_run::{replay_exchange, run_exchanges};
 use crate::gen::*;
 use crate::refmodel::framing::{decide, Framing};
 
-pub const RULE: &str = "full product: request version {1.0,1.1} x request Connection {absent, close, keep-alive, keep-alive+close as two fields} x request kind {GET, HEAD, POST with Content-Length, POST with Expect, GET carrying an Expect header} x Expect outcome {100 received / late 100 after give-up, silent server + give-up, refused bare, refused with fields} x response version {1.0,1.1} x status {200,204,304,404,302 with Location} x response framing {none, Content-Length: 0, Content-Length: 3, chunked} x response Connection {absent, close, keep-alive, keep-alive+close}; every cell explored through the real flow under all mixtures of whole-message and 1-byte arrivals (quick: whole-message arrivals + give-up at every point), verdict read in the Redirect state and in Cleanup; part b: every prefix, cut after the complete Location line, of 3xx heads with Connection / framing fields before and after the Location line (3 methods x 3 statuses x 7 x 4 field sets x every cut): whenever the library accepts such a prefix as a complete response (known finding KF1 of C05) the exchange must end must-close. distinct = distinct (cell, final observation) pairs";
+pub const RULE: &str = "full product: request version {1.0,1.1} x request Connection {absent, close, keep-alive, keep-alive+close as two fields} x request kind {GET, HEAD, POST with Content-Length, POST with Expect, GET carrying an Expect header} x Expect outcome {100 received / late 100 after give-up, silent server + give-up, refused bare, refused with fields} x response version {1.0,1.1} x status {200,204,304,404,302 with Location; 101 and 103 as bare answers to Expect} x response framing {none, Content-Length: 0, Content-Length: 3, chunked} x response Connection {absent, close, keep-alive, keep-alive+close}; every cell explored through the real flow under all mixtures of whole-message and 1-byte arrivals (quick: whole-message arrivals + give-up at every point), verdict read in the Redirect state and in Cleanup; part b: every prefix, cut after the complete Location line, of 3xx heads with Connection / framing fields before and after the Location line (3 methods x 3 statuses x 7 x 4 field sets x every cut): whenever the library accepts such a prefix as a complete response (known finding KF1 of C05) the exchange must end must-close. distinct = distinct (cell, final observation) pairs";
 
 pub fn build(tier: Tier) -> Vec<Arc<ExchCfg>> {
     let mut out = Vec::new();
@@ -33,7 +33,11 @@ pub fn build(tier: Tier) -> Vec<Arc<ExchCfg>> {
                 let outcomes: &[&str] = if expect && method == "POST" { &["100", "silent", "refused-bare", "refused-fields"] } else { &["na"] };
                 for oc in outcomes {
                     for sver in ["1.0", "1.1"] {
-                        for status in [200u16, 204, 304, 404, 302] {
+                        for status in [200u16, 204, 304, 404, 302, 101, 103] {
+                            // 1xx other than 100 only matter as answers to an Expect request (bare refusal)
+                            if (status == 101 || status == 103) && *oc != "refused-bare" {
+                                continue;
+                            }
                             for fr in ["none", "cl0", "cl3", "chunked"] {
                                 for sconn in conns {
                                     if *oc == "refused-bare" && (fr != "none" || !sconn.is_empty() || status == 302) {
@@ -195,7 +199,6 @@ fn lost_boundary_sweep(rep: &mut Report) {
 
 pub fn run(tier: Tier) -> Report {
     let cfgs = build(tier);
-    crate::engine::WD_LIMIT_S.store(120, std::sync::atomic::Ordering::Relaxed);
     let lim = Limits { max_states: 1_000_000, keep_final_traces: 2, keep_state_traces: 1, check_coreach: true, probe_every: 8, ..Default::default() };
     let mut rep = run_exchanges(cfgs, &lim, false, |c| c.to_json());
     let fs = rep.extra.get("final_states").and_then(|v| v.as_u64()).unwrap_or(0);
